@@ -44,9 +44,10 @@ static std::vector<uint8_t> unhex(const std::string& s)
 { std::vector<uint8_t> v; for (size_t i = 0; i + 1 < s.size(); i += 2) v.push_back(uint8_t(strtoul(s.substr(i, 2).c_str(), 0, 16))); return v; }
 
 template <class T> void overfill(T&) { }
+template <class T> void overwrap(T&) { }
 
 template <class T, endianness E>
-void work(const std::vector<uint8_t>& in, bool over)
+void work(const std::vector<uint8_t>& in, int over)
 {
     /* exact-size heap copy: any read outside [data, data+size) hits an ASan redzone */
     uint8_t* buf = static_cast<uint8_t*>(malloc(in.size() ? in.size() : 1));
@@ -57,7 +58,8 @@ void work(const std::vector<uint8_t>& in, bool over)
     std::cout << "ok=" << ok << " maxalloc=" << g_maxalloc;
     if (ok)
     {
-        if (over) overfill(x);
+        if (over == 1) overfill(x);
+        if (over == 2) overwrap(x);
         size_t sz = x.get_byte_size();
         std::vector<uint8_t> v = x.template encode<E>();
         /* exact-size heap buffer: any write outside get_byte_size() bytes hits a redzone */
@@ -76,7 +78,7 @@ void work(const std::vector<uint8_t>& in, bool over)
 }
 
 template <class T>
-void dispatch(char e, const std::vector<uint8_t>& in, bool over)
+void dispatch(char e, const std::vector<uint8_t>& in, int over)
 {
     try
     {
@@ -96,7 +98,7 @@ int main()
     while (std::cin >> type >> e >> op >> data)
     {
         std::vector<uint8_t> in = unhex(data == "-" ? std::string() : data);
-        bool over = op == "over";
+        int over = op == "over" ? 1 : op == "wrap" ? 2 : 0;
         std::cout << "@" << type << " " << std::flush;
         if (false) { }
 %(cases)s
@@ -115,6 +117,18 @@ def overfill_code(st):
     if not lines:
         return ''
     return 'template <> void overfill<%s>(%s& x)\n{\n%s\n}\n' % (st.name, st.name, '\n'.join(lines))
+
+
+def overwrap_code(st):
+    """arrays counted by an 8-bit sizer filled with more elements than the sizer can count"""
+    lines = []
+    for f in st.fields:
+        if f.sizer_of and isinstance(f.ty, W.Int) and f.ty.size == 1:
+            for a in f.sizer_of:
+                lines.append('    x.%s.resize(300);' % a)
+    if not lines:
+        return ''
+    return 'template <> void overwrap<%s>(%s& x)\n{\n%s\n}\n' % (st.name, st.name, '\n'.join(lines))
 
 
 class Unit(object):
@@ -140,7 +154,7 @@ def build_unit(unit, scratch, raw=False):
         return unit
     unit.nodes = nodes
     drv = DRIVER_HEAD % {'name': unit.name}
-    drv += ''.join(overfill_code(t) for t in unit.types if isinstance(t, W.Struct))
+    drv += ''.join(overfill_code(t) + overwrap_code(t) for t in unit.types if isinstance(t, W.Struct))
     cases = ''.join('        else if (type == "%s") dispatch<%s>(e[0], in, over);\n' % (t.name, t.name) for t in unit.types)
     drv += DRIVER_MAIN % {'cases': cases}
     with open(os.path.join(d, 'driver.cpp'), 'w') as f:
@@ -250,7 +264,12 @@ def family(seed, tier, salt, count=None, with_unions=True, chunk=20):
                   for i in range(6 if tier == 'quick' else 40)]
         if tier != 'quick':
             unions += F.all_unions()
-    items = unions + structs
+    # fixed probes of the recorded findings (known_findings.json), so that they are reported on every run
+    probes = [F.build_struct('KF0', [('optional', 'FL', 0), ('plain', 'u8', 0)], True),
+              F.build_struct('KF1', [('ext', 'u32', 0), ('plain', 'u16', 0)], True)]
+    # every member kind at least once, independent of the seed
+    probes += [F.build_struct(n, ks, True) for n, ks in F.CXX_PROBES]
+    items = probes + unions + structs
     units = []
     for k in range(0, len(items), chunk):
         part = items[k:k + chunk]
